@@ -401,7 +401,7 @@ CODEC_TB = COMMON_TB + [
 
 PROPS["C01"] = {
     "lean_modules": ["Stef.Props.C01", "Stef.Props.C01Enc"],
-    "harness": [{"bin": "h_codec", "args": ["roundtrip"], "oracle_prefixes": ["sd decode"]}],
+    "harness": [{"bin": "h_codec", "args": ["roundtrip"], "oracle_prefixes": ["sd decode", "sd values"]}],
     "rule": ("cases = type-directed random histories on otelstef Metrics and Spans writers (wide value distributions: all "
              "float classes, integer extremes/wrapping deltas, repeated strings, lengths across 0/1/62/63/64/65, nested "
              "AnyValue, frozen shared dict structs, CopyFrom) x writer options (none/zstd, frame limits 0..64K, dict limits, "
@@ -427,8 +427,8 @@ PROPS["C01"] = {
 
 PROPS["C02"] = {
     "lean_modules": ["Stef.Props.C02"],
-    "harness": [{"bin": "h_codec", "args": ["golden"], "oracle_prefixes": ["sd decode"]},
-                {"bin": "h_codec", "args": ["roundtrip"], "oracle_prefixes": ["sd decode"]}],
+    "harness": [{"bin": "h_codec", "args": ["golden"], "oracle_prefixes": ["sd decode", "sd values"]},
+                {"bin": "h_codec", "args": ["roundtrip"], "oracle_prefixes": ["sd decode", "sd values"]}],
     "rule": ("golden corpus corpus/C02/*.golden (150 streams of both roots recorded at the pinned commit; the current Go reader and "
              "the Lean specification decoder must both return the recorded records) + the generated histories of C01 decoded by the "
              "independent Lean decoder, which also counts direct encodings of values already in their dictionary (dv must be 0); "
@@ -499,7 +499,7 @@ HGEN_TB = CODEC_TB + [
 PROPS["C10"] = {
     "lean_modules": ["Stef.Props.C10"],
     "harness": [],
-    "runner": "hgen", "runner_args": ["c10"], "oracle_prefixes": ["sd decode"],
+    "runner": "hgen", "runner_args": ["c10"], "oracle_prefixes": ["sd decode", "sd values"],
     "rule": ("cases = schemas drawn from VERIF_SEED by harness/cmd/h_gen (1..3 roots, <= 10 types x <= 6 fields: structs with "
              "dict modifier, oneofs, multimaps with primitive/struct/oneof/array/multimap keys and values, arrays of "
              "primitives/enums/structs/oneofs/multimaps, enums, optional primitive and composite fields, string/bytes "
@@ -532,7 +532,7 @@ PROPS["C10"] = {
 PROPS["C04"] = {
     "lean_modules": ["Stef.Props.C04"],
     "harness": [],
-    "runner": "hgen", "runner_args": ["c04"], "oracle_prefixes": ["sd decode"],
+    "runner": "hgen", "runner_args": ["c04"], "oracle_prefixes": ["sd decode", "sd values"],
     "rule": ("cases = pairs (A, B) where B is A plus 1..4 fields appended to the end of random structs/oneofs (primitives, "
              "optional primitives, dict strings, existing struct/oneof/multimap types, arrays, NEW struct/oneof/multimap types "
              "that insert entries in the middle of the depth-first count list), both generated by stefc into one temporary "
